@@ -594,7 +594,8 @@ class Interp:
             return cur
         if isinstance(cur, Arr) and cur.is_nd:
             # numpy in-place: keeps the array object and its dtype
-            res = self.binop(op, cur, val)
+            # the result may be lazy (symbolic length): it must read the OLD contents, not the object being updated
+            res = self.binop(op, cur.copy() if not cur.concrete_len() else cur, val)
             if isinstance(res, Arr):
                 if cur.dtype == "int" and res.dtype == "float":
                     if op == "/":
@@ -1766,6 +1767,14 @@ class Interp:
                 raise PyExc(ExcVal("SystemExit", ()))
             self.ctx.dropped.add(f_node.id + "()")
             return None
+        if isinstance(f_node, ast.Name) and f_node.id == "locals" and not e.args and not e.keywords:
+            ee, shadowed = env, "locals" in env.module.ns
+            while ee is not None and not shadowed:
+                shadowed = "locals" in ee.vars
+                ee = ee.parent
+            if not shadowed:
+                # the calling function's own variables (a snapshot, like CPython's)
+                return dict(env.vars)
         fn = self.eval(f_node, env)
         if isinstance(fn, NativeModule) and fn.dropped:
             self.ctx.dropped.add(fn.name + "()")
